@@ -142,6 +142,8 @@ class Run:
         self.fail_counts = {}
         self.t0 = time.time()
         self.notes = []
+        self.ordinal = 0        # position of the current evaluation in this (deterministic) run
+        self.stop_at = None     # history replay: stop after this evaluation and report it
 
     @property
     def quick(self):
@@ -149,12 +151,15 @@ class Run:
 
     def check(self, name, args, nontrivial=True):
         fn = CHECKS[name]
+        self.ordinal += 1
         try:
             detail = fn(args)
         except RecursionError:
             detail = 'check raised RecursionError'
         except Exception as e:  # a check must never raise: it reports
             detail = 'check raised %s: %s' % (type(e).__name__, str(e)[:200])
+        if self.stop_at is not None and self.ordinal == self.stop_at:
+            raise StopRun({'check': name, 'args': ser(args), 'detail': detail})
         if detail == 'SKIP':
             self.skipped += 1
             return True
@@ -185,7 +190,7 @@ class Run:
         self.fail_counts[key] = n + 1
         if n < self.MAX_STORED:
             self.failures.append({'check': name, 'args': ser(args),
-                                  'detail': detail, 'finding': cls})
+                                  'detail': detail, 'finding': cls, 'ordinal': self.ordinal})
 
     def result(self):
         return {
@@ -203,6 +208,13 @@ class Run:
 
 class Timeout(Exception):
     pass
+
+
+class StopRun(Exception):
+    """history replay reached the requested evaluation"""
+    def __init__(self, outcome):
+        Exception.__init__(self, 'stop')
+        self.outcome = outcome
 
 
 def with_watchdog(fn, seconds=5):
